@@ -284,6 +284,24 @@ def connect (auth : Option Auth) (req : Request) (server : Bytes) : Bytes × Out
           | .ok _ server => connectRequest sent req server
     else (sent, .error .auth)     -- 0xff (no acceptable) or a method that was not offered
 
+/-- after a CONNECT dialogue that succeeded: what is left of the server's bytes - the destination's data, which is
+what the tunnel over this connection hands to its client first (nothing of the reply, everything behind it) -/
+def afterDialogue (server : Bytes) : Option Bytes :=
+  match readSelection server with
+  | .err _ => none
+  | .ok m server =>
+    let afterAuth : Option Bytes :=
+      if m == 0 then some server
+      else match readAuthResponse server with
+        | .ok _ s => some s
+        | .err _ => none
+    match afterAuth with
+    | none => none
+    | some s =>
+      match readReply s with
+      | .ok _ rest => some rest
+      | .err _ => none
+
 /-! ### `socks5_forwarder.rs` -/
 
 inductive Source where
